@@ -7,7 +7,7 @@ Ltac prj :=
        cfg_chunk cfg_buffer cfg_connect_queue rcfg_buffer remote_ver ports outstanding listen_open lq_wait lq_nowait
        all_clients_dropped remote_client_dropped remote_listener_dropped goodbye_sent goodbye_received
        remote pool pool_closed rx_open rxq rx_closed rx_dropped tx_dropped rrx_closed rrx_dropped
-       h_tx h_rx h_rxc set RecordSet.set set_handle] in *.
+       h_tx h_rx h_rxc lr_remote lr_id lr_wait set RecordSet.set set_handle] in *.
 
 Ltac deq1 a b :=
   let E := fresh "E" in
@@ -22,9 +22,11 @@ Ltac deq :=
 Ltac simp :=
   cbn [b2n isK orb andb negb is_some is_answered is_waiting is_queued is_gone is_connected app flat_map
        ev_nums ev_reqs st_reqs is_reply is_sd is_rd is_rc map fst snd] in *.
-Ltac lists :=
+Ltac lists1 :=
   rewrite ?N.eqb_refl, ?q_nums_app, ?q_reqs_app, ?q_nums_cons, ?q_reqs_cons, ?occ_app, ?occ_cons, ?occ_nil,
           ?count_snoc, ?count_cons, ?count_nil, ?lookup_insert, ?lookup_remove, ?mem_del, ?mem_cons, ?hget_insert in *.
+Ltac lists := lists1.
+Ltac lists2 := lists1; lists1.
 
 Definition Good (e : ep) : Prop :=
   panicked e = None /\ dead e = None /\ NoDup (alloc e) /\ len (alloc e) <= max_ports e /\ Inv e.
@@ -47,6 +49,8 @@ Proof. unfold fresh. intros H. bools. apply N.ltb_lt in H0. auto. Qed.
 
 Ltac neutral :=
   try assumption;
+  try solve [apply qs_ok_push_chq; [reflexivity|assumption]];
+  try solve [apply qs_ok_push_cq; [reflexivity|assumption]];
   try solve [apply req_ok_push; [reflexivity|assumption]];
   try solve [apply handle_ok_push; [intros; repeat split; reflexivity|assumption]];
   try solve [apply num_ok_push_chq; [reflexivity|assumption]];
@@ -59,7 +63,7 @@ Ltac good_split :=
 Lemma step_UConnect e p id wait req e' :
   Good e -> step_opt e (UConnect p id wait req) = Some e' -> Good e'.
 Proof.
-  intros (Hp & Hd & Hnd & Hlen & [Hnum Hreq Hh Hpq Hbuf Hlq Hkeys Hconn]) H. unfold step_opt in H.
+  intros (Hp & Hd & Hnd & Hlen & [Hqs Hnum Hreq Hh Hpq Hbuf Hlq Hkeys Hconn]) H. unfold step_opt in H.
   cases. bools. apply fresh_spec in H2 as [Hm Hl]. injection H as <-.
   good_split.
   - constructor; [now apply mem_false_In|auto].
@@ -70,7 +74,7 @@ Proof.
 Qed.
 
 Ltac inv_intro :=
-  intros (Hp & Hd & Hnd & Hlen & [Hnum Hreq Hh Hpq Hbuf Hlq Hkeys Hconn]) H; unfold step_opt in H.
+  intros (Hp & Hd & Hnd & Hlen & [Hqs Hnum Hreq Hh Hpq Hbuf Hlq Hkeys Hconn]) H; unfold step_opt in H.
 
 Lemma neutral_SendPorts rp f l w ps p :
   is_sd p (ESendPorts rp f l w ps) = false /\ is_rd p (ESendPorts rp f l w ps) = false /\ is_rc p (ESendPorts rp f l w ps) = false.
